@@ -4,6 +4,7 @@ import (
 	"fmt"
 	"go/token"
 	"go/types"
+	"strings"
 
 	"golang.org/x/tools/go/ssa"
 )
@@ -39,6 +40,7 @@ func runC13(c *Ctx) {
 	c.rule("R13.2", "every caller of a protected user-call function checks its error and, when non-nil, emits an error reply and returns without reaching the success reply")
 	c.rule("R13.3", "reflective calls into user code occur only inside protected functions")
 
+	c.rule("R13.5", "nothing acquired before the user call is released only after it in straight-line code of the recovering function (a panic skips that code: the slot, lock or counter would leak and later calls block)")
 	c.rule("R13.4", "the error reply for a panicking handler has somewhere to go: the writer provider handed to the dispatcher is never nil (a nil provider turns the recovered panic into a crash on the library's own goroutine)")
 	c.wsWriterChoice("R13.4")
 
@@ -69,6 +71,7 @@ func runC13(c *Ctx) {
 			}
 			c.check(ok2, "R13.1", construct, c.ipos(in), why, why)
 			c.check(ok2, "R13.3", construct, c.ipos(in), "inside a recover frame", "reflective call into user code outside a recover frame")
+			c.panicLeak("R13.5", fn, in)
 		})
 	}
 	if nsites == 0 {
@@ -406,4 +409,75 @@ func (c *Ctx) recoveredValueMisuse(v ssa.Value, depth int, seen map[ssa.Value]bo
 		}
 	}
 	return ""
+}
+
+// panicLeak: R13.5. In the function that calls into user code under its own deferred recover, a
+// panic unwinds from the call straight into the deferred functions: statements after the call do
+// not run. An acquisition before the call (send into / receive from a channel used as a semaphore,
+// Lock, WaitGroup.Add, atomic add) whose counterpart stands after the call in the function body
+// instead of in a deferred function is therefore never undone for a panicking handler; after enough
+// panics every other call blocks on the acquisition.
+func (c *Ctx) panicLeak(rule string, fn *ssa.Function, user ssa.Instruction) {
+	type op struct {
+		kind string // "send", "recv", "lock", "unlock", "add", "done", "atomic"
+		obj  ssa.Value
+		at   ssa.Instruction
+	}
+	var ops []op
+	allInstrsRaw(fn, func(in ssa.Instruction) {
+		switch x := in.(type) {
+		case *ssa.Send:
+			ops = append(ops, op{"send", x.Chan, in})
+		case *ssa.UnOp:
+			if x.Op == token.ARROW {
+				ops = append(ops, op{"recv", x.X, in})
+			}
+		case *ssa.Select:
+			for _, st := range x.States {
+				if st.Dir == types.SendOnly {
+					ops = append(ops, op{"send", st.Chan, in})
+				} else {
+					ops = append(ops, op{"recv", st.Chan, in})
+				}
+			}
+		case *ssa.Call:
+			nm := calleeName(x)
+			args := x.Common().Args
+			switch nm {
+			case "(*sync.Mutex).Lock", "(*sync.RWMutex).Lock", "(*sync.RWMutex).RLock":
+				ops = append(ops, op{"lock", args[0], in})
+			case "(*sync.Mutex).Unlock", "(*sync.RWMutex).Unlock", "(*sync.RWMutex).RUnlock":
+				ops = append(ops, op{"unlock", args[0], in})
+			case "(*sync.WaitGroup).Add":
+				ops = append(ops, op{"add", args[0], in})
+			case "(*sync.WaitGroup).Done":
+				ops = append(ops, op{"done", args[0], in})
+			default:
+				if strings.HasPrefix(nm, "sync/atomic.Add") || (strings.HasPrefix(nm, "(*sync/atomic.") && strings.HasSuffix(nm, ").Add")) {
+					ops = append(ops, op{"atomic", args[0], in})
+				}
+			}
+		}
+	})
+	pairs := map[string]string{"send": "recv", "recv": "send", "lock": "unlock", "add": "done", "atomic": "atomic"}
+	isUser := func(in ssa.Instruction) bool { return in == user }
+	construct := fmt.Sprintf("%s: state held across user code", fname(fn))
+	for _, a := range ops {
+		want, ok := pairs[a.kind]
+		if !ok || a.at == user || reachFrom(a.at, isUser, nil) == nil {
+			continue
+		}
+		for _, b := range ops {
+			if b.kind != want || b.at == a.at || !sameVal(a.obj, b.obj) {
+				continue
+			}
+			bAt := b.at
+			if reachFrom(user, func(in ssa.Instruction) bool { return in == bAt }, nil) == nil {
+				continue
+			}
+			c.bad(rule, construct, c.ipos(b.at), "the "+a.kind+" at "+c.ipos(a.at)+" before the user call is undone by the "+b.kind+" after it in the function body: a panicking handler unwinds past it into the deferred recover, so the acquisition leaks — after enough panics every later call (on every connection) blocks at the acquisition")
+			return
+		}
+	}
+	c.ok(rule, construct, c.ipos(user), "nothing acquired before the user call is released after it outside a deferred function")
 }
